@@ -161,6 +161,11 @@ class Ev:
 def classify_effects(p):
     evs = []
     for n, ef in enumerate(p.effects):
+        if ef['kind'] == 'store':
+            # a plain assignment through a raw pointer (`*self.ceb = *ceb`): a data write to wherever the pointer leads
+            base = ef['ptr'][1][0][1] if ef['ptr'][1][0][0] == 'S' else ef['ptr']
+            evs.append(Ev(n, 'dwrite', ef, field=target_field(base, p.effects) or target_field(ef['ptr'], p.effects), dest=ef['ptr']))
+            continue
         if ef['kind'] != 'call' or ef['tracing']:
             continue
         name = ef['callee']
@@ -227,6 +232,8 @@ def record_extent(fb, p, ev):
     name = ef['callee']
     body = fb.body(ef['site'][0])
     targs = (ef.get('fn') or {}).get('targs') or []
+    if ef['kind'] == 'store' and body is not None:
+        targs = [ef['ty']]
     if body is None or not targs:
         return None
     tt = body.crate.types[targs[0]]
